@@ -425,7 +425,7 @@ func (r *run) runStream() {
 		})
 		defer wire.Close()
 	}
-	roundtrip := prop != "C15"
+	roundtrip := prop == "C01" || prop == "C02" || prop == "C03" || prop == "C04"
 	var samples []map[string]any
 	lastJSON := ""
 	closed := false
